@@ -95,10 +95,34 @@ func relevant(assumes []*Term, goal *Term) []*Term {
 	return out
 }
 
-func buildScript(assumes []*Term, o *Obligation) (string, []string, bool) {
+// buildScript renders the VC of o. With groundOnly the quantified hypotheses
+// are replaced by their ground instances (a weaker, quantifier-free VC: unsat
+// still proves the obligation, sat means nothing).
+func buildScript(assumes []*Term, o *Obligation, groundOnly bool) (string, []string, bool) {
 	target := And(o.PC, Not(o.Goal))
 	as := relevant(assumes[:o.NAssume], target)
 	roots := append(append([]*Term(nil), as...), target)
+	insts := instantiate(roots, target)
+	if groundOnly {
+		var kept []*Term
+		for _, r := range roots {
+			if !hasQuant(r) {
+				kept = append(kept, r)
+			}
+		}
+		if len(kept) == len(roots) {
+			return "", nil, false
+		}
+		roots = kept
+		var gi []*Term
+		for _, r := range insts {
+			if !hasQuant(r) {
+				gi = append(gi, r)
+			}
+		}
+		insts = gi
+	}
+	roots = append(roots, insts...)
 	var probeTerms []*Term
 	for _, p := range o.Probes {
 		probeTerms = append(probeTerms, p.T)
@@ -220,17 +244,35 @@ func main() {
 	scripts := map[*Obligation]string{}
 	for _, j := range jobs {
 		mu.Lock()
-		script, probes, lam := buildScript(j.fr.Assumes, j.o)
+		script, probes, lam := buildScript(j.fr.Assumes, j.o, false)
+		gscript, _, glam := buildScript(j.fr.Assumes, j.o, true)
 		scripts[j.o] = script
+		if *dump != "" && gscript != "" {
+			os.MkdirAll(*dump, 0o755)
+			os.WriteFile(filepath.Join(*dump, sanitize(j.o.Name)+".ground.smt2"), []byte(gscript+"(check-sat)\n"), 0o644)
+		}
 		mu.Unlock()
 		wg.Add(1)
 		sem <- struct{}{}
-		go func(j solveJob, script string, probes []string, lam bool) {
+		go func(j solveJob, script, gscript string, probes []string, lam, glam bool) {
 			defer wg.Done()
 			defer func() { <-sem }()
 			j.o.Lambda = lam
+			if gscript != "" {
+				// quantifier-free approximation first: unsat is conclusive
+				gt := 15
+				if timeout > 20 {
+					gt = 60
+				}
+				r := Solve(gscript, nil, gt, glam)
+				if r.Status == "unsat" {
+					r.Solver += " (ground instances)"
+					j.o.Res = r
+					return
+				}
+			}
 			j.o.Res = Solve(script, probes, timeout, lam)
-		}(j, script, probes, lam)
+		}(j, script, gscript, probes, lam, glam)
 	}
 	wg.Wait()
 	rep := &Report{Ctx: ctx, Results: results, Prop: *prop, Tier: *tier, Verbose: *verbose, Dump: *dump, Scripts: scripts,
@@ -247,4 +289,115 @@ func contains(xs []string, x string) bool {
 		}
 	}
 	return false
+}
+
+// instantiate adds ground instances of the asserted-positive quantifiers in
+// roots at the index terms of the goal (skolem constants and select indices,
+// and their neighbours). The quantified formulas stay in place; the instances
+// only help the solvers.
+func instantiate(roots []*Term, target *Term) []*Term {
+	// quantifier nodes
+	var quants []*Term
+	seen := map[int]bool{}
+	var findQ func(t *Term)
+	findQ = func(t *Term) {
+		if seen[t.id] {
+			return
+		}
+		seen[t.id] = true
+		if (t.op == "forall") && instQuant[t.id] {
+			quants = append(quants, t)
+		}
+		for _, a := range t.args {
+			findQ(a)
+		}
+	}
+	for _, r := range roots {
+		findQ(r)
+	}
+	if len(quants) == 0 {
+		return nil
+	}
+	// candidate terms by sort
+	cands := map[string][]*Term{}
+	have := map[int]bool{}
+	add := func(t *Term) {
+		if have[t.id] || hasBound(t) || len(cands[t.sort]) >= 10 {
+			return
+		}
+		have[t.id] = true
+		cands[t.sort] = append(cands[t.sort], t)
+	}
+	seen2 := map[int]bool{}
+	var collect func(t *Term)
+	collect = func(t *Term) {
+		if seen2[t.id] {
+			return
+		}
+		seen2[t.id] = true
+		if t.leaf && !boundVars[t.id] && (strings.HasPrefix(t.op, "q.") || strings.HasPrefix(t.op, "seq.k") || strings.HasPrefix(t.op, "frame.k")) {
+			add(t)
+		}
+		if t.op == "select" && !t.args[1].lit {
+			add(t.args[1])
+		}
+		if t.op == "forall" || t.op == "exists" {
+			return
+		}
+		for _, a := range t.args {
+			collect(a)
+		}
+	}
+	collect(target)
+	// neighbours for integer indices
+	for _, t := range append([]*Term(nil), cands[SBV(64)]...) {
+		add(BVSub(t, BV(1, 64)))
+		add(BVAdd(t, BV(1, 64)))
+	}
+	var out []*Term
+	for _, r := range roots {
+		var qs []*Term
+		s3 := map[int]bool{}
+		var inR func(t *Term)
+		inR = func(t *Term) {
+			if s3[t.id] {
+				return
+			}
+			s3[t.id] = true
+			if t.op == "forall" && instQuant[t.id] {
+				qs = append(qs, t)
+				return
+			}
+			for _, a := range t.args {
+				inR(a)
+			}
+		}
+		inR(r)
+		for _, q := range qs {
+			for _, c := range cands[q.args[0].sort] {
+				body := Replace(q.args[1], q.args[0], c, map[int]*Term{})
+				inst := Replace(r, q, body, map[int]*Term{})
+				if inst != r {
+					out = append(out, inst)
+				}
+			}
+		}
+	}
+	return out
+}
+
+var hasQuantMemo = map[int]bool{}
+
+func hasQuant(t *Term) bool {
+	if r, ok := hasQuantMemo[t.id]; ok {
+		return r
+	}
+	r := t.op == "forall" || t.op == "exists"
+	for _, a := range t.args {
+		if hasQuant(a) {
+			r = true
+		}
+	}
+	hasQuantMemo[t.id] = r
+	return r
 }
